@@ -168,7 +168,12 @@ def run_harnesses(crate, names, jobs=16, harness_timeout='10m', overall_timeout=
                     r['failed_checks'] = re.findall(r'Failed Checks: (.*)', body)
                     real = [c for c in r['failed_checks'] if 'unwinding assertion' not in c]
                     # an insufficient unwind bound is a limit of the harness, never a violation
-                    r['status'] = 'failed' if real else 'unwind_bound'
+                    if real:
+                        r['status'] = 'failed'
+                    elif r['failed_checks']:
+                        r['status'] = 'unwind_bound'
+                    else:
+                        r['status'] = 'tool_error'  # FAILED without a failed check: CBMC was killed / undetermined
             else:
                 r['status'] = 'unknown'
         results[n] = r
@@ -282,7 +287,7 @@ def run_property(prop, cfg, tier, repo, scratch, seed):
         elif r['status'] == 'failed':
             mine, other = [], []
             for c in r['failed_checks']:
-                m = PROP_RE.match(c.strip())
+                m = PROP_RE.match(c.strip().strip('"'))
                 if m:
                     (mine if prop in m.group(1).split(',') else other).append(c.strip())
                 else:
